@@ -80,6 +80,14 @@ def check_merge(ctx, parts, extra, tag):
     ctx.check(parts_in == list(parts) and all(np.array_equal(x, y) for x, y in zip(logits_in, logits)), "merge_modifies_its_input",
               lambda: "parts=%r" % (parts,))
     text, merged = res
+    # the rows handed back for one line stay what they are when the next line is stitched (process_lines collects the
+    # results of all split lines of a batch before it returns them)
+    merged_first = np.asarray(merged)
+    kept = merged_first.copy()
+    other_logits = [l[::-1].copy() + 1000.0 for l in logits]
+    ctx.must("merge_raises", E.merge_transcriptions_and_logits, list(parts), other_logits)
+    ctx.check(merged_first.shape == kept.shape and np.array_equal(merged_first, kept), "merged_logits_of_an_earlier_line_changed_by_a_later_merge",
+              lambda: "parts=%r: the rows returned for the first call were altered by a second call" % (parts,))
     cands = reference_merges(ctx, parts, E.find_best_overlap)
     desc = lambda: "parts=%r result=%r allowed=%r" % (parts, text, [(c[0], c[2]) for c in cands])
     match = [c for c in cands if c[0] == text]
@@ -338,8 +346,74 @@ def body_lines(ctx, case):
         ctx.nontrivial(("lines", lines_classes, mlw, bs, trims))
 
 
+# ---------------------------------------------------------------- true windows of one text: nothing may be lost
+def strat_true_windows():
+    from hypothesis import strategies as st
+
+    @st.composite
+    def case(draw):
+        kind = draw(st.sampled_from(["periodic", "periodic", "random", "words"]))
+        if kind == "periodic":
+            motif = draw(st.sampled_from(["abc", "ha ", "ab", "abcd", "na", "la la ", "0", "xyx"]))
+            text = motif * draw(st.integers(2, 12)) + draw(st.text(alphabet="abdxyz ", max_size=6))
+            if draw(st.booleans()):
+                text = draw(st.text(alphabet="abdxyz ", max_size=6)) + text
+        elif kind == "words":
+            text = " ".join(draw(st.lists(st.sampled_from(["the", "then", "hen", "he", "a", "that", "hat", "at"]), min_size=3, max_size=14)))
+        else:
+            text = draw(st.text(alphabet="abc ", min_size=6, max_size=50))
+        w = draw(st.integers(3, max(3, min(24, len(text) - 1))))
+        step = draw(st.integers(1, w - 1))
+        extras = draw(st.lists(st.integers(0, 3), min_size=60, max_size=60))
+        return text, w, step, extras
+    return case()
+
+
+def is_subsequence(small, big):
+    it = iter(big)
+    return all(ch in it for ch in small)
+
+
+def body_true_windows(ctx, case):
+    """Noise-free windows of one text, every window overlapping its predecessor by w - step >= 1 characters: the true overlap
+    is then a perfect match, and whatever overlap is detected, stitching may repeat characters of a repetitive passage but
+    must never lose one - the text is a subsequence of the result, which begins with the first and ends with the last window."""
+    from pero_ocr.ocr_engine import line_ocr_engine as E
+    text, w, step, extras = case
+    if len(text) < w + 1:
+        return
+    parts, start = [], 0
+    while True:
+        parts.append(text[start:start + w])
+        if start + w >= len(text):
+            break
+        start += step
+    if len(parts) < 2 or len(parts) > 60:
+        return
+    logits = make_logits(parts, extras[:len(parts)])
+    res = ctx.must("merge_raises", E.merge_transcriptions_and_logits, list(parts), [l.copy() for l in logits])
+    merged, rows = res
+    desc = lambda: "text=%r window=%d step=%d parts=%r merged=%r" % (text, w, step, parts, merged)
+    ctx.check(is_subsequence(text, merged), "text_lost_when_stitching_true_windows", desc)
+    ctx.check(merged.endswith(parts[-1]), "prefix_or_suffix_lost", desc)
+    ctx.check(merged.startswith(parts[0][:len(parts[0]) - (w - step + 1) // 2]), "prefix_or_suffix_lost", desc)
+    ctx.check(np.asarray(rows).shape[0] == len(merged), "logit_rows_differ_from_text_length", desc)
+    if merged == text:
+        ctx.event("text_restored_exactly")
+    else:
+        ctx.event("repetitive_seam_repeated_characters")
+    # a seam inside a repetitive passage: more than one perfect suffix/prefix match
+    perfect = [i for i in range(1, min(len(parts[0]), len(parts[1])) + 1) if parts[0][-i:] == parts[1][:i]]
+    if len(perfect) >= 2:
+        ctx.event("several_perfect_overlaps_at_a_seam")
+        ctx.nontrivial(("true_windows", text, w, step))
+    elif len(parts) >= 3:
+        ctx.nontrivial(("true_windows", text, w, step))
+
+
 UNITS = [
     Unit("merge", "given", body=body_merge, strategy=strat_parts, quick=2000, thorough=50000),
+    Unit("true_windows", "given", body=body_true_windows, strategy=strat_true_windows, quick=1500, thorough=30000),
     Unit("overlap", "given", body=body_overlap, strategy=strat_overlap, quick=1000, thorough=20000),
     Unit("pairs", "enum", body=body_enum, cases=enum_cases, exhaustive=True),
     Unit("process_lines", "given", body=body_lines, strategy=strat_lines, quick=300, thorough=6000),
